@@ -12,11 +12,11 @@ CHECKS = {
          "Trusts the reference interpreter (lib/prog/eval.go) as the documented meaning; divisors that fold to the compile-time constant 0 are excluded (documented programmer error) and counted.",
          "DESIGN.md §3 C04"),
  "C01": ("property-based metamorphic + adversarial-prover testing (rapid, verif hook)",
-         "Random provable circuits (0-3 commitments) on all 7 curves are proved for real; the genuine (proof, public witness) pair is then edited (public inputs, every group element, commitment list incl. the forged surplus commitment, re-decoded bytes) or re-produced by the real prover continued on a row-violating assignment injected through the verif hook; Verify must reject every variant, and accept the genuine pair. Exploration: finds logic holes (missing check, wrong binding, forgotten row), says nothing about hardness assumptions.",
+         "Random provable circuits (0-3 commitments) on all 7 curves are proved for real; the genuine (proof, public witness) pair is then edited (public inputs, every group element, commitment list incl. the forged surplus commitment, cofactor-torsion translates of every G1 element, re-decoded bytes) or re-produced by the real prover continued on a row-violating assignment injected through the verif hook; Verify must reject every variant, and accept the genuine pair; key invariants: the Pedersen keys of different commitments come from distinct trapdoors, and (recording hash) every commitment challenge is bound to the commitment and its committed public values. Exploration: finds logic holes (missing check, wrong binding, forgotten row), says nothing about hardness assumptions.",
          "Rejection oracle is sound up to negligible-probability coincidences; CommitmentPok of commitment-free proofs is not counted as a proof element; the dishonest prover needs the verif-tagged post-solve hook.",
          "DESIGN.md §3 C01"),
  "C02": ("property-based metamorphic + adversarial-prover testing; reference model of the verifying key with a known toxic value (rapid)",
-         "A: as C01 for PLONK (public inputs, all commitments / openings / claimed values, BSB22 and claimed-value lists, consistent hash options, dishonest prover violating a gate, a copy constraint, a padding position or a public row). B: with an SRS of known tau every digest of the verifying key is compared with [P(tau)]G1 for selector and permutation polynomials rebuilt independently from the exported gates, and the exported permutation's cycle partition must equal the wire partition.",
+         "A: as C01 for PLONK (public inputs, all commitments / openings / claimed values, BSB22 and claimed-value lists, consistent hash options, dishonest prover violating a gate, a copy constraint, a padding position or a public row); a recording challenge hash shows that the transcript absorbs the verifying-key digests, every public input and every prover message before each challenge. B: with an SRS of known tau every digest of the verifying key is compared with [P(tau)]G1 for selector and permutation polynomials rebuilt independently from the exported gates, and the exported permutation must tie all positions of one wire on one cycle and never join two wires (padding positions may only join wire 0).",
          "A: as C01. B: trusts the harness's reconstruction of the documented trace layout (placeholders, padding = wire 0); equality of digests at a single known tau (error probability n/p).",
          "DESIGN.md §3 C02"),
  "C13": ("property-based reference testing + hint adversary (rapid, exhaustive sweep on F47)",
@@ -32,15 +32,15 @@ CHECKS = {
          "Worker interleavings are sampled, not enumerated; systems whose hints draw randomness (commitments) are only checked by the validity predicate; the replay solver answers 'undetermined' (counted) when a row has more than one unknown.",
          "DESIGN.md §3 C06"),
  "C07": ("property-based testing against a reference model of the struct layout (rapid, reflect.StructOf)",
-         "Circuit struct shapes are synthesised with reflect (nesting, arrays, slices, pointers, every tag combination, visibility conflicts) and assigned values of every accepted Go type; the generator's own plan of declared order and visibility decides the witness vector, the public-only witness, Witness.Public(), the input counts of both compiled systems, what each variable carries inside Define (pinned constants; exchanging two values must be noticed) and the binary / JSON round trips.",
-         "The dynamic struct hangs under a fixed Shell{Body any} holder; embedded structs and init-hook types (which reflect.StructOf cannot synthesise) are not generated.",
+         "Circuit struct shapes are synthesised with reflect (nesting, arrays, slices, pointers, every tag combination, embedded structs, visibility conflicts) and assigned values of every accepted Go type; the generator's own plan of declared order and visibility decides the witness vector, the public-only witness, Witness.Public(), the input counts of both compiled systems, what each variable carries inside Define (pinned constants; exchanging two values must be noticed) and the binary / JSON round trips.",
+         "The dynamic struct hangs under a fixed Shell{Body any} holder; embedded structs come from a small palette of named types; init-hook types (which reflect.StructOf cannot synthesise) are not generated.",
          "DESIGN.md §3 C07"),
  "C19": ("property-based differential testing + hint adversary on the GKR solve/prove hints (rapid)",
-         "Random GKR topologies (add/mul/neg/sub and custom gates, fan-out, Series dependencies, 2^k instances) on both builders and the test engine: exported values must equal direct in-circuit evaluation; with GkrInfo detached and the genuine hints wrapped, 10 forgery kinds (altered outputs, proofs of another statement, altered proof elements, an adaptive attack that learns the first challenge) must all be unsatisfiable; every solve runs under a watchdog.",
+         "Random GKR topologies (add/mul/neg/sub and custom gates, fan-out, Series dependencies, 2^k instances) and the gkr-poseidon2 compression gadget (any number of calls, incl. non-powers of two) on both builders and the test engine: exported values must equal direct in-circuit evaluation; with GkrInfo detached and the genuine hints wrapped, 10 forgery kinds (altered outputs, proofs of another statement, altered proof elements, an adaptive attack that learns the first challenge) must all be unsatisfiable; every solve runs under a watchdog.",
          "Single-instance topologies do not compile on this tree (recorded as an observation, outside the property); a cheating sum-check prover is not built, so bugs only exploitable by fabricating round polynomials are out of reach.",
          "DESIGN.md §3 C19"),
  "C08": ("structure-aware mutation of genuine artifacts with a crash + structural oracle (rapid; native fuzzing in the thorough tier)",
-         "Genuine proofs, keys and witnesses of generated circuits on all curves and both backends are mutated at the byte level (length prefixes, truncation at and inside every slot, garbage, bit flips, zeros; compressed and raw) and at the object level (lists resized / nil, witnesses of wrong length or field, headers disagreeing with the payload); no call may panic, byte counts must stay within the input, and structurally inconsistent inputs must be reported as errors.",
+         "Genuine proofs, keys and witnesses of generated circuits on all curves and both backends are mutated at the byte level (length prefixes, truncation at and inside every slot, garbage, bit flips, zeros; compressed and raw) and at the object level (lists resized / nil, witnesses of wrong length or field, headers disagreeing with the payload, two compensating edits such as k fewer commitments with k more public inputs); no call may panic, byte counts must stay within the input, and structurally inconsistent inputs must be reported as errors.",
          "Length prefixes are capped at payload/elemsize+64 because of open finding F05 (fatal out-of-memory inside gnark-crypto's decoders, probed in a memory-limited child process on every run); arbitrary byte strings are reached only through mutations of genuine encodings.",
          "DESIGN.md §3 C08"),
  "C14": ("exhaustive small-scope enumeration over F47 + boundary-biased property-based testing + hint adversary (rapid)",
@@ -48,12 +48,12 @@ CHECKS = {
          "uints has no per-method documentation: plain w-bit arithmetic on in-range inputs is assumed; a full CSP search over F47 is replaced by enumerating every value / one-hot / two-hot / step vector of the gadget hints.",
          "DESIGN.md §3 C14"),
  "C09": ("round-trip + differential property-based testing (rapid)",
-         "For generated systems (all instruction kinds: generic / specialised gates, hints, lookup tables, range checks, emulated multiplication, commitments, logs), Groth16/PLONK keys (compressed, raw, raw+unsafe, memory dump), proofs and witnesses: reported byte count == bytes written == bytes consumed (with sentinel bytes after the encoding), re-encoding is byte-identical, the decoded system has the same levels / counts / commitment info and solves every witness to the same verdict and solution, and the full cross matrix {original, decoded} cs x pk x vk proves and verifies (a decoded vk still rejects a wrong public input).",
+         "For generated systems (all instruction kinds: generic / specialised gates, hints, lookup tables, range checks, emulated multiplication, commitments, logs), Groth16/PLONK keys (compressed, raw, raw+unsafe, memory dump), proofs and witnesses: reported byte count == bytes written == bytes consumed (with sentinel bytes after the encoding), re-encoding is byte-identical, the decoded system has the same levels / counts / commitment info and solves every witness to the same verdict and solution, and the full cross matrix {original, decoded} cs x pk x vk proves and verifies (a decoded vk still rejects a wrong public input); large systems (collections around 2^16 / 2^17 entries) round-trip too.",
          "Small-field systems have no exported empty-system factory and are not round-tripped; GKR metadata is covered only through C19's circuits, not here.",
          "DESIGN.md §3 C09"),
  "C10": ("differential testing of concurrent vs sequential execution in child processes (rapid scenarios; race detector in the thorough tier)",
-         "Generated scenarios share one compiled R1CS / sparse system (witness-dependent lookup table, commitment, hints), Groth16 and PLONK keys, proofs and a solver-option slice with spare capacity among 2-8 goroutines making Solve / Prove / Verify calls with distinct satisfying and non-satisfying witnesses (also on a restored-from-bytes system, also while other circuits compile in the background); every concurrent call must return what it returned alone, a later sequential pass must still match, and the child must not crash, race or wedge.",
-         "Interleavings are sampled by repetition x GOMAXPROCS values, not enumerated; there is no schedule control. Assurance: no divergence in N repetitions and (thorough) a clean race-detector run.",
+         "Generated scenarios share one compiled R1CS / sparse system (witness-dependent lookup table, commitment, hints), Groth16 and PLONK keys, proofs and a solver-option slice with spare capacity among 2-8 goroutines making Solve / Prove / Verify calls with distinct satisfying and non-satisfying witnesses (wrong outputs and lookups outside the table, which fail inside an instruction) (also on a restored-from-bytes system, also while other circuits compile in the background); every concurrent call must return what it returned alone, a later sequential pass must still match, and the child must not crash, race or wedge.",
+         "Interleavings are sampled by repetition x GOMAXPROCS values, not enumerated; there is no schedule control. A wedge is only declared when no call completed for 45 s and the process then sat idle (< 0.3 s CPU in 15 s), twice; a slow child is inconclusive. Assurance: no divergence in N repetitions and (thorough) a clean race-detector run.",
          "DESIGN.md §3 C10"),
  "C11": ("metamorphic property-based testing: repeated compilation must give identical bytes (rapid; child processes)",
          "Generated circuits using hints, commitments, lookup tables, range checks, emulated arithmetic, multicommit, nested deferred callbacks, Println and the sparse builder's wire-query interface are compiled K times sequentially, in parallel goroutines while other circuits compile, and in fresh processes; the serialized constraint systems must be byte-identical, and keys of the first compilation must prove and verify with the K-th.",
@@ -72,7 +72,7 @@ CHECKS = {
          "Open finding F11 (carry limbs of the multiplication hint are not range checked: native-field wrap forgery) is probed on every run incl. a real Groth16 proof, printed as KNOWN-FINDING and excluded by a narrow signature.",
          "DESIGN.md §3 C12"),
  "C16": ("differential property-based testing against reference curve arithmetic / native verifiers + hint adversary (rapid, exceptional-input tables)",
-         "Short-Weierstrass (emulated secp256k1, BN254, P-256, P-384, BLS12-381, BW6-761; native BLS12-377) and twisted-Edwards group operations, scalar and multi-scalar multiplication with and without complete arithmetic on exceptional points and scalars, ECDSA / EdDSA / ecrecover accept-sets against crypto/ecdsa and gnark-crypto, pairing checks on true and false equations; on compiled circuits the GLV / fake-GLV decomposition and scalar-mul hints are rewritten and a wrong claimed point must be unsatisfiable.",
+         "Short-Weierstrass (emulated secp256k1, BN254, P-256, P-384, BLS12-381, BW6-761; native BLS12-377) and twisted-Edwards group operations, scalar and multi-scalar multiplication with and without complete arithmetic on exceptional points and scalars (incl. equal / opposite partial products of joint multiplications), ECDSA / EdDSA / ecrecover accept-sets against crypto/ecdsa and gnark-crypto, pairing checks on true and false equations; on compiled circuits the GLV / fake-GLV decomposition and scalar-mul hints are rewritten and a wrong claimed point must be unsatisfiable.",
          "Ten open findings (F24-F32, F39: unchecked zero sub-scalars, selector bypass, AddUnified exceptional case, non-terminating half-GCD hint, unsatisfiable small scalars, twisted-Edwards decomposition not bound, ECDSA x(R) not reduced, bandersnatch identity) are each probed on every run, printed as KNOWN-FINDING and excluded by exact shape; inputs outside a method's documented domain are not asserted.",
          "DESIGN.md §3 C16"),
  "C20": ("invariant checking over repeated proofs with captured wire values (rapid, verif hook)",
